@@ -250,7 +250,7 @@ def _leaves(tree, out):
     return out
 
 
-def nice_model(path, inp, extra=(), timeout_ms=10000, allow_raw=True):
+def nice_model(path, inp, extra=(), timeout_ms=10000, allow_raw=True, allow_mild=True):
     """a model of the path condition with 'nice' input values (moderate magnitudes, separated dyadic reals)"""
     leaves = _leaves(inp, [])
     reals = [l.e for l in leaves if isinstance(l, SReal)]
@@ -279,7 +279,7 @@ def nice_model(path, inp, extra=(), timeout_ms=10000, allow_raw=True):
     for v in ints:
         nice.append(z3.And(v >= -1000, v <= 1000))
     mild = [z3.And(r >= -1000, r <= 1000) for r in reals] + [z3.And(v >= -1000, v <= 1000) for v in ints]
-    attempts = [base + nice, base + mild] + ([base] if allow_raw else [])
+    attempts = [base + nice] + ([base + mild] if allow_mild else []) + ([base] if allow_raw else [])
     for cons in attempts:
         r, m = symx.solve_fresh(cons, timeout_ms)
         if r == "sat":
@@ -401,7 +401,7 @@ def run_cell(h, cell, tier, seed, budget_s):
             if tier == "thorough" and nval[0] >= cell.get("max_validate", 400):
                 want = False
             if want and not ctx.violations:
-                m = nice_model(ctx.path, ctx.inputs, timeout_ms=4000, allow_raw=False)
+                m = nice_model(ctx.path, ctx.inputs, timeout_ms=4000, allow_raw=False, allow_mild=False)
                 if m is None:
                     res["unvalidated_paths"] = res.get("unvalidated_paths", 0) + 1  # no well-conditioned witness: skipped, not failed
                     return
